@@ -184,7 +184,7 @@ pub fn sim_engine(prop: &str) -> Option<SimEngine> {
         "C03" => SimEngine {
             prop: "C03",
             profile: "dag",
-            quick: 1500,
+            quick: 1000,
             max_len: 90,
             eager_ratio: 80,
             nontrivial: |c| has(c, "dependency-abort") || (has(c, "graph-with-edges") && (has(c, "task-failed") || has(c, "tasks-canceled"))),
@@ -202,7 +202,7 @@ pub fn sim_engine(prop: &str) -> Option<SimEngine> {
         "C06" => SimEngine {
             prop: "C06",
             profile: "steal",
-            quick: 1500,
+            quick: 1000,
             max_len: 100,
             eager_ratio: 90,
             nontrivial: |c| has(c, "retract-confirmed") || has(c, "re-execution"),
@@ -211,7 +211,7 @@ pub fn sim_engine(prop: &str) -> Option<SimEngine> {
         "C07" => SimEngine {
             prop: "C07",
             profile: "loss",
-            quick: 1500,
+            quick: 1000,
             max_len: 100,
             eager_ratio: 90,
             nontrivial: |c| has(c, "failure-loss-while-running"),
